@@ -207,6 +207,14 @@ def m_is_whitespace(ex, st, callee, args):
     return [(w, boolv(True)), (z3.Not(w), boolv(False))]
 
 
+def m_is_ascii_whitespace(ex, st, callee, args):
+    """char::is_ascii_whitespace: U+0020, U+0009, U+000A, U+000C, U+000D (not U+000B)"""
+    c = scalar(ex, st, args[0])
+    e = c.e
+    w = z3.Or(*[e == z3.BitVecVal(k, e.size()) for k in (0x20, 0x09, 0x0A, 0x0C, 0x0D)])
+    return [(w, boolv(True)), (z3.Not(w), boolv(False))]
+
+
 # ---------------------------------------------------------------- iterator adaptors that take closures (closures are pure here)
 def _closure_or_fail(ex, callee):
     fn = ex.closure_fn(callee)
@@ -439,6 +447,7 @@ def install(m):
         (r"^<Chars<'_> as IntoIterator>::into_iter$", lambda ex, st, c, a: [(None, a[0])]),
         (r"^<Chars<'_> as Iterator>::next$", m_chars_next),
         (r"^char::methods::<impl char>::is_whitespace$", m_is_whitespace),
+        (r"^(core::)?char::methods::<impl char>::is_ascii_whitespace$", m_is_ascii_whitespace),
         (r"^<Chars<'_> as Iterator>::(any|all)::<", m_iter_any_all),
         (r"^<std::slice::Iter<'_, .*> as Iterator>::(any|all)::<", m_iter_any_all),
         (r"^<(std::slice::Iter<'_, .*>|Chars<'_>) as Iterator>::map::<", m_iter_map),
